@@ -100,6 +100,8 @@ void RetireList<T, D>::retire(T* data) {
   }
   do {
     node->next = get_node(head);
+    // the stamp must not be older than the head value this CAS is compared against
+    new_head = make_head(node, get_current_timestamp());
   } while (!_head.compare_exchange_weak(head, new_head,
                                         ::std::memory_order_acq_rel));
 }
